@@ -33,12 +33,12 @@ type World struct {
 	SSAPkgs map[string]*ssa.Package
 	RepoDir string
 
-	allFuncs  []*ssa.Function // every function with a body, closures included
-	declOf    map[*types.Func]*ast.FuncDecl
-	callersOf map[*ssa.Function][]*ssa.CallInstruction
-	callerIdx map[*ssa.Function][]ssa.CallInstruction // lazily built static call index
-	Tags      string
-	cg        *callgraph.Graph
+	allFuncs    []*ssa.Function // every function with a body, closures included
+	declOf      map[*types.Func]*ast.FuncDecl
+	callersOf   map[*ssa.Function][]*ssa.CallInstruction
+	callerIdx   map[*ssa.Function][]ssa.CallInstruction // lazily built static call index
+	Tags        string
+	cg          *callgraph.Graph
 	RenameNotes []string // what the rename normalisation took to be renamed
 }
 
